@@ -177,7 +177,7 @@ Section PC.
     set (s1 := s <| s_hq := [] |>). set (s2 := s1 <| s_cur := Some c |>).
     assert (Ho2 : lookup c (s_ops s2) = Some o) by exact Ho.
     assert (V2 : CP s2).
-    { intros i o1 Hi Hk. specialize (HCP i o1 Hi Hk). unfold HandshakeRunClose.places in *. rewrite Eh, Hcur, Epw in HCP. cbn in HCP |- *. tauto. }
+    { intros i o1 Hi Hk. specialize (HCP i o1 Hi Hk). unfold HandshakeRunClose.places in HCP |- *. rewrite Eh, Hcur, Epw in HCP. cbn in HCP |- *. tauto. }
     unfold op_exists. rewrite Ho2. cbn [negb].
     assert (Haq : acquire_pid_for s2 c = Ok s2).
     { unfold acquire_pid_for. rewrite Ho2. destruct (op_pid o); [reflexivity|]. rewrite Hpk, Hc0. reflexivity. }
@@ -300,7 +300,7 @@ Section PC.
       split; [discriminate|left; reflexivity]. }
     rewrite service_queue_loop. cbv zeta. unfold HandshakeRunTrace.service_queue_seats.
     destruct (pc_loop now cap fill (queue_fuel _ _ _ _ s) s [] [] HP) as (L1 & L2 & L3 & L4).
-    set (rt := service_loop_t (queue_fuel _ _ _ _ s) s false now cap fill [] []) in *.
+    set (rt := service_loop_t (queue_fuel _ _ _ _ s) s false now cap fill [] []) in L1, L2, L3, L4 |- *.
     assert (Hq : let q := match sr_bytes (fst rt) with
                           | [] => fst rt
                           | _ => mkSres (sr_s (fst rt) <| s_pwc := true |>) (sr_bytes (fst rt)) (sr_done (fst rt)) (sr_out (fst rt))
@@ -310,7 +310,7 @@ Section PC.
       split; [exact L1|]. split; [eapply (CP_view (sr_s (fst rt))); [reflexivity|exact L2]|].
       intros E. eapply (PCI_view (sr_s (fst rt))); [reflexivity|reflexivity|exact (L3 E)]. }
     cbv zeta in Hq. destruct Hq as (Q1 & Q2 & Q3).
-    match goal with |- context [halt_on_error (sr_s ?q0) (sr_out ?q0)] => set (q := q0) in * end. cbn [sr_s sr_done].
+    match goal with |- context [halt_on_error (sr_s ?q0) (sr_out ?q0)] => set (q := q0) in Q1, Q2, Q3 |- * end. cbn [sr_s sr_done].
     split; [apply CP_halt; exact Q2|]. split; [exact Q1|].
     destruct (sr_out q) as [[]|k|site]; cbn [halt_on_error].
     - destruct (Q3 eq_refl) as (A & B & C). splits; auto.
